@@ -46,6 +46,11 @@ class GenHarness:
             return ("ret", r[1].strval, r[1])
         return r
 
+    def bban_of(self, cc, text):
+        it = self.it
+        r = self.one(lambda: it.call(ClsRef(self.bban), [cc, text], {}), f"BBAN({cc!r}, ...)")
+        return r
+
     def components_of(self, obj, names):
         it = self.it
         return self.one(lambda: {n: it.getattr(obj, n) for n in names}, "component accessors")
